@@ -117,6 +117,31 @@ def compare_subsets(c, impl, tags):
                 c.fail("new_binary", i, "%s::new_binary differs from the model" % model, {"tags": iv["tags"], "k": iv["k"]}, mod, v)
 
 
+def homo_polar(case):
+    """(mu, q) expected for each component that from_json_segments returns (python mirror of the lookup: last record wins)"""
+    opt_key = {"Cas": "cas", "Name": "name", "IupacName": "iupac_name", "Smiles": "smiles", "Inchi": "inchi", "Formula": "formula"}[case["opt"]]
+    srec = {}
+    for r in case["segment_records"]:
+        srec[r["identifier"]] = r
+    out, seen = [], []
+    for q in case["query"]:
+        if q in seen:
+            continue
+        seen.append(q)
+        ch = [c for c in case["chemical_records"] if c["identifier"].get(opt_key) == q]
+        if not ch:
+            continue
+        mu = q2 = None
+        for sname in ch[-1]["segments"]:
+            r = srec.get(sname)
+            if r and r["polar"] == 1:
+                mu = (mu or 0.0) + r["mu(hetero: kinds 5,6; homo: kind 5)"]
+            if r and r["polar"] == 2:
+                q2 = (q2 or 0.0) + 2.25
+        out.append((mu, q2))
+    return out
+
+
 def compare_homo(c, impl, tags):
     mods = tags.get("HOMO", [None])[0]
     stats = {"max_rel": 0.0}
@@ -150,6 +175,11 @@ def compare_homo(c, impl, tags):
                 c.fail("homo", i, "%s failed where from_json_segments succeeded" % name, iv["case"], mod, v.get(name))
                 continue
             ok = len(r["comps"]) == len(comps)
+            if ok and name == "ok":
+                # the polar segment (at most one per molecule) hands its dipole / quadrupole moment to the molecule
+                for rc, want in zip(r["comps"], homo_polar(iv["case"])):
+                    if len(rc) >= 6 and (rc[4], rc[5]) != want:
+                        ok = False
             if ok:
                 for rc, mc in zip(r["comps"], comps):
                     ok = ok and close(rc[0], mc[0]) and close(rc[1], mc[1]) and close(rc[3], mc[3])
@@ -208,6 +238,24 @@ def compare_hetero(c, impl, tags):
                 if ipb != bonds:
                     ok, detail = False, {"component": ci, "what": "bond map of the parameter set", "model": bonds, "impl": ipb}
                     break
+                # dipole of the molecule: mu^2 = sum n_a mu_a^2; dipolar iff positive; then m, sigma, epsilon of the molecule
+                mu2, mm, s3, eps = frac(mc[3]), frac(mc[4]), frac(mc[5]), frac(mc[6])
+                dip = ic.get("dipole")
+                if (mu2 > 0) != (dip is not None):
+                    ok, detail = False, {"component": ci, "what": "dipolar component list", "model_mu2_sum": float(mu2), "impl": dip}
+                    break
+                if dip is not None:
+                    c.count("hetero:dipolar_component")
+                    if max(n for (_, n) in counts if True) > 1:
+                        pass
+                    good = (close(dip["mu2_sum"], mu2, 1e-12) and close(dip["m"], mm) and mm != 0
+                            and close(dip["sigma"] ** 3, s3 / mm, 5 * RTOL) and close(dip["epsilon_k"], eps / mm))
+                    if not good:
+                        ok, detail = False, {"component": ci, "what": "dipole combining rule (mu^2 = sum n mu_a^2, m, sigma, epsilon of the molecule)",
+                                             "segment_counts": counts,
+                                             "model": {"mu2_sum": float(mu2), "m": float(mm), "sigma": float(s3 / mm) ** (1 / 3.0), "epsilon_k": float(eps / mm)},
+                                             "impl": dip}
+                        break
         if ok:
             for (ci, ki, cj, kj, x) in v["ok"]["k"]:
                 want = Fraction(0) if ci == cj else kmod.get((ki, kj))
@@ -215,7 +263,7 @@ def compare_hetero(c, impl, tags):
                     ok, detail = False, {"k_entry": [ci, ki, cj, kj], "model": None if want is None else float(want), "impl": x}
                     break
         if not ok:
-            c.fail("hetero", i, "GcPcSaftEosParameters::from_json_segments: counts / bonds / molar weight / k_ab differ from the model",
+            c.fail("hetero", i, "GcPcSaftEosParameters::from_json_segments: counts / bonds / molar weight / dipole / k_ab differ from the model",
                    iv["case"], detail, "see model_says")
 
 
@@ -248,6 +296,29 @@ def compare_serde(c, impl, tags):
             if not ok:
                 c.fail("serde", i, "serde form of %s differs from the shape model (print / re-read / re-print)" % key,
                        iv["print"], {"print": p, "reprint": rp, "assoc_some_after": some_after}, iv)
+    mods = tags.get("SERDE_EB", [None])[0]
+    if not isinstance(mods, list) or len(mods) != len(impl["serde"]["ebinary"]):
+        c.fail("serde", -1, "model output for SERDE_EB missing", None, str(mods)[:200], None, False)
+    else:
+        for i, (mv, iv) in enumerate(zip(mods, impl["serde"]["ebinary"])):
+            c.count("serde:epcsaft_binary")
+            p = jobj_to_dict(mv[0])
+            rp = None if mv[1] == "None" else jobj_to_dict(mv[1][1][0])
+            k_after = None if mv[1] == "None" else [z / 8.0 for z in mv[1][1][1]]
+            if not (p == iv["print"] and rp == iv["reprint"] and k_after == iv["k_after"] and iv["k_after"] == iv["k_before"]):
+                c.fail("serde", i, "serde form of ElectrolytePcSaftBinaryRecord differs from the shape model (k_ij coefficients written / re-read)",
+                       {"record": {"k_ij": iv["k_before"]}, "serialised_by_feos": iv["print"]},
+                       {"print": p, "reprint": rp, "k_ij_after_round_trip": k_after}, iv)
+    for sw in impl.get("serde_sweep", []):
+        c.count("serde_sweep:" + sw["type"])
+        c.n += sw["accepted"] - 1
+        if sw["failing"]:
+            c.fail("serde_sweep", 0, "%s: a value is lost or changed by read -> write -> re-read (%d of %d records)" % (sw["type"], sw["failing"], sw["accepted"]),
+                   sw["failures"][0]["record_read"], "every non-zero / non-default value read is written again and the written form is stable",
+                   sw["failures"][:3])
+        if sw["accepted"] < sw["generated"] // 2:
+            c.fail("serde_sweep", 1, "%s: the generated JSON records are mostly rejected (%d of %d accepted): the schema of the sweep is out of date" % (
+                sw["type"], sw["accepted"], sw["generated"]), None, None, sw.get("sample"), False)
     files = 0
     records = 0
     for s in impl["shipped"]:
